@@ -448,10 +448,19 @@ replay_data(void)
 	size_t csize = vp_u64("vp_in_csize", 4), resid = vp_u64("vp_in_cresid", 6), n = vp_u64("vp_arg_n", 1);
 	if (!(csize >= 1 && csize <= SIZE_MAX - 2 && vp_u64("vp_in_calloc", csize + 2) == csize + 2 && resid >= 1 && resid <= csize + 2))
 		SKIP("counterexample pre-state is not a well-formed chunk");
-	if (csize > NMAX)
-		SKIP("chunk of %zu bytes too large to build natively", csize);
 	if (n < 1)
 		SKIP("precondition: n >= 1");
+	if (csize > NMAX) {
+		/* a chunk that cannot be allocated here: the same situation at a small scale (64-byte
+		 * chunk; same bytes missing if few are missing, else same bytes stored up to 32; n on the
+		 * same side of "what the chunk still misses", same distance up to 8) */
+		size_t filled = csize + 2 - resid, c2 = 64, r2, n2;
+		r2 = resid <= 34 ? resid : c2 + 2 - VP_MIN(filled, (size_t) 32);
+		n2 = n >= resid ? r2 + VP_MIN(n - resid, (size_t) 8) : VP_MIN(n, r2 - 1);
+		printf("note: chunk of %zu bytes (resid %zu, n %zu) cannot be built natively; replayed at scale: size %zu resid %zu n %zu\n", csize,
+		    resid, n, c2, r2, n2);
+		csize = c2, resid = r2, n = n2 ? n2 : 1;
+	}
 	if (n > NMAX) /* only min(n, resid) bytes may be read: offer that much and a little more */
 		n = resid + 8;
 	for (int v = 0; v < 3; v++)
